@@ -45,5 +45,9 @@ C06_SuccessRespOnly == (J /\ FirstResp # 0 /\ Act(FirstResp) = "sep" /\ ~Acked /
 \* "exhaustion of the attempts or a reset never produces a successful response"
 C06_NoFalseSuccess == J => \A k \in 1..N : Ev[k].ret = "ok" =>
                         (FirstResp # 0 /\ FirstResp <= k /\ Ev[k].pay = PayOf(FirstResp) /\ Ev[k].code = 69)
+\* the first transmission is refused by the network (a transient write error; context and connection stay alive): the call
+\* returns the error, so "no copy after ... the return of the call" - no later sweep sends anything for it - and the
+\* connection's next request is transmitted (the exchange gave back what it held)
+C06_FailedWriteSilent == (J /\ T.wfail) => (Len(C) = 0 /\ FinalRet = "err" /\ ~T.final.entry /\ T.nextSent)
 C06_NoFalseSuccessEnd == J => (FinalRet = "ok" => FirstResp # 0)
 =============================================================================
